@@ -147,9 +147,32 @@ var evTypes = map[string]auparse.AuditMessageType{
 	"SYSCALL":    auparse.AUDIT_SYSCALL,
 	"CRED_DISP":  auparse.AUDIT_CRED_DISP,
 	"LOGIN":      auparse.AUDIT_LOGIN,
+	// further record types a session produces; none of them opens or ends one
+	"USER_LOGOUT":      auparse.AUDIT_USER_LOGOUT,
+	"USER_AUTH":        auparse.AUDIT_USER_AUTH,
+	"USER_ERR":         auparse.AUDIT_USER_ERR,
+	"USER_CHAUTHTOK":   auparse.AUDIT_USER_CHAUTHTOK,
+	"USER_ROLE_CHANGE": auparse.AUDIT_USER_ROLE_CHANGE,
+	"USER_MGMT":        auparse.AUDIT_USER_MGMT,
+	"SERVICE_START":    auparse.AUDIT_SERVICE_START,
+	"SERVICE_STOP":     auparse.AUDIT_SERVICE_STOP,
+	"AVC":              auparse.AUDIT_AVC,
+	"SECCOMP":          auparse.AUDIT_SECCOMP,
+	"ANOM_ABEND":       auparse.AUDIT_ANOM_ABEND,
+	"TTY":              auparse.AUDIT_TTY,
+	"USER_TTY":         auparse.AUDIT_USER_TTY,
+	"EXECVE":           auparse.AUDIT_EXECVE,
 }
 
-var evTypeNames = []string{"USER_START", "USER_END", "USER_CMD", "CRED_ACQ", "CRED_REFR", "USER_LOGIN", "USER_ACCT", "SYSCALL"}
+// rawUserTypes: record types the raw-level renderer (a user-space record with
+// a msg='...' body) can express; the others are delivered as USER_CMD there.
+var rawUserTypes = map[string]bool{"USER_START": true, "USER_END": true, "USER_CMD": true, "CRED_ACQ": true, "CRED_REFR": true, "USER_LOGIN": true,
+	"USER_ACCT": true, "USER_LOGOUT": true, "USER_AUTH": true, "USER_ERR": true, "USER_CHAUTHTOK": true, "USER_ROLE_CHANGE": true, "USER_MGMT": true,
+	"SERVICE_START": true, "SERVICE_STOP": true}
+
+var evTypeNames = []string{"USER_START", "USER_END", "USER_CMD", "CRED_ACQ", "CRED_REFR", "USER_LOGIN", "USER_ACCT", "SYSCALL",
+	"USER_LOGOUT", "USER_AUTH", "USER_ERR", "USER_CHAUTHTOK", "USER_ROLE_CHANGE", "USER_MGMT", "SERVICE_START", "SERVICE_STOP",
+	"AVC", "SECCOMP", "ANOM_ABEND", "TTY", "USER_TTY", "EXECVE"}
 
 // finding is one oracle verdict, attributed to a property class.
 type finding struct {
@@ -559,7 +582,7 @@ func (rawExec) run(plan Plan, ops []HOp) (*histResult, error) {
 			ok = send(vlib.AuLogin(ts, seq, strconv.Itoa(plan.Pid[op.K]), plan.Sid[op.K]))
 		case opEv:
 			typ := op.Typ
-			if typ == "" || typ == "SYSCALL" {
+			if !rawUserTypes[typ] {
 				typ = "USER_CMD"
 			}
 			ok = send(vlib.AuUser(typ, ts, seq, plan.Pid[op.K], plan.Sid[op.K], "PAM:x", "success"))
